@@ -1344,36 +1344,59 @@ TranscodeNumber(
 
 
 
-static const char* const    thePrintfStrings[] =
+// The longest string produced for a double: a sign, up to 309 integer digits,
+// the decimal point, and as many fraction digits as the smallest double needs
+// to be told apart from its neighbours.
+const int       MAX_DOUBLE_FRACTION_DIGITS = 340;
+
+const size_t    MAX_DOUBLE_PRINTF_DIGITS = 1 + 309 + 1 + MAX_DOUBLE_FRACTION_DIGITS;
+
+
+
+// Writes theValue, which must be finite, in fixed notation using the fewest
+// fraction digits (but at least 10) that convert back to the same value.
+static int
+DoubleToFixedString(
+            double  theValue,
+            char*   theBuffer)
 {
-    "%.10f",
-    "%.11f",
-    "%.12f",
-    "%.13f",
-    "%.14f",
-    "%.15f",
-    "%.16f",
-    "%.17f",
-    "%.18f",
-    "%.19f",
-    "%.20f",
-    "%.21f",
-    "%.22f",
-    "%.23f",
-    "%.24f",
-    "%.25f",
-    "%.26f",
-    "%.27f",
-    "%.28f",
-    "%.29f",
-    "%.30f",
-    "%.31f",
-    "%.32f",
-    "%.33f",
-    "%.34f",
-    "%.35f",
-    0
-};
+    using std::sprintf;
+    using std::atof;
+
+    int     thePrecision = 10;
+
+    const double    theMagnitude = theValue < 0 ? -theValue : theValue;
+
+    if (theMagnitude < 1e-10)
+    {
+        // Skip the precisions that can only produce zeros.
+        thePrecision = int(-std::floor(std::log10(theMagnitude)));
+    }
+
+    int     theCharsWritten = 0;
+
+    do
+    {
+        theCharsWritten = sprintf(theBuffer, "%.*f", thePrecision, theValue);
+        assert(theCharsWritten != 0);
+
+        ++thePrecision;
+    }
+    while(atof(theBuffer) != theValue && thePrecision <= MAX_DOUBLE_FRACTION_DIGITS);
+
+    return theCharsWritten;
+}
+
+
+
+// True if theValue can be converted to XMLInt64 without loss.
+static bool
+isInt64Value(double     theValue)
+{
+    return theValue >= -9223372036854775808.0 &&
+           theValue < 9223372036854775808.0 &&
+           static_cast<XMLInt64>(theValue) == theValue;
+}
 
 
 
@@ -1433,30 +1456,17 @@ DOMStringHelper::NumberToCharacters(
             theZeroString,
             sizeof(theZeroString) / sizeof(theZeroString[0]) - 1);
     }
-    else if (static_cast<XMLInt64>(theValue) == theValue)
+    else if (isInt64Value(theValue) == true)
     {
         NumberToCharacters(static_cast<XMLInt64>(theValue), formatterListener, function);
     }
     else
     {
-        char            theBuffer[MAX_PRINTF_DIGITS + 1];
+        char            theBuffer[MAX_DOUBLE_PRINTF_DIGITS + 1];
 
-        using std::sprintf;
-        using std::atof;
         using std::isdigit;
 
-        const char* const *     thePrintfString = thePrintfStrings;
-
-        int     theCharsWritten = 0;
-
-        do
-        {
-            theCharsWritten = sprintf(theBuffer, *thePrintfString, theValue);
-            assert(theCharsWritten != 0);
-
-            ++thePrintfString;
-        }
-        while(atof(theBuffer) != theValue && *thePrintfString != 0);
+        int     theCharsWritten = DoubleToFixedString(theValue, theBuffer);
 
         // First, cleanup the output to conform to the XPath standard,
         // which says no trailing '0's for the decimal portion.
@@ -1503,7 +1513,7 @@ DOMStringHelper::NumberToCharacters(
             }
         }
 
-        XalanDOMChar    theResult[MAX_PRINTF_DIGITS + 1];
+        XalanDOMChar    theResult[MAX_DOUBLE_PRINTF_DIGITS + 1];
 
         TranscodeNumber(
                 theBuffer,
@@ -1733,30 +1743,17 @@ NumberToDOMString(
             theZeroString,
             sizeof(theZeroString) / sizeof(theZeroString[0]) - 1);
     }
-    else if (static_cast<XMLInt64>(theValue) == theValue)
+    else if (isInt64Value(theValue) == true)
     {
         NumberToDOMString(static_cast<XMLInt64>(theValue), theResult);
     }
     else
     {
-        char            theBuffer[MAX_PRINTF_DIGITS + 1];
+        char            theBuffer[MAX_DOUBLE_PRINTF_DIGITS + 1];
 
-        using std::sprintf;
-        using std::atof;
         using std::isdigit;
 
-        const char* const *     thePrintfString = thePrintfStrings;
-
-        int     theCharsWritten = 0;
-
-        do
-        {
-            theCharsWritten = sprintf(theBuffer, *thePrintfString, theValue);
-            assert(theCharsWritten != 0);
-
-            ++thePrintfString;
-        }
-        while(atof(theBuffer) != theValue && *thePrintfString != 0);
+        int     theCharsWritten = DoubleToFixedString(theValue, theBuffer);
 
         // First, cleanup the output to conform to the XPath standard,
         // which says no trailing '0's for the decimal portion.
